@@ -7,6 +7,7 @@ from hypothesis import strategies as st
 from vf.harness import Check
 from vf.gen import lens as GL
 from vf.gen.build import build
+from vf.gen.edit import edit_strategy, apply_edit, ALL_KINDS
 from vf.gen import samples as GS
 from vf.ref import trace as RT
 
@@ -62,7 +63,7 @@ class C02(Check):
 
     def strategy(self, tier):
         return st.fixed_dictionaries(dict(kind=st.just('spec'), spec=GL.lens_spec('real'), rays=ray_bundle(),
-                                          wl=st.integers(0, 3)))
+                                          wl=st.integers(0, 3), edit=edit_strategy(ALL_KINDS, p_none=2)))
 
     def fixed_cases(self, tier):
         return [dict(kind='sample', name=n) for n in GS.sample_names()]
@@ -81,6 +82,17 @@ class C02(Check):
         spec = case['spec']
         out.cls(*GL.spec_classes(spec))
         o = build(spec)
+        self.trace_and_judge(case, out, o, spec)
+        ed = case.get('edit')
+        if ed:
+            # history on one Optic: trace, edit through the public setters, trace again; the second trace must obey the
+            # laws on the *edited* prescription
+            spec2 = apply_edit(o, spec, ed)
+            if spec2 is not None:
+                out.cls('retraced_after_' + ed['kind'] + '_edit')
+                self.trace_and_judge(case, out, o, spec2)
+
+    def trace_and_judge(self, case, out, o, spec):
         w = spec['wls'][case['wl'] % len(spec['wls'])]
         rays = case['rays']
         Hy = np.array([r[0] for r in rays], dtype=float)
